@@ -3,11 +3,14 @@ package wmesh
 import (
 	"bytes"
 	"context"
+	"crypto/cipher"
 	"encoding/binary"
 	"encoding/hex"
 	"fmt"
 	"net"
 	"time"
+
+	"golang.org/x/crypto/chacha20poly1305"
 
 	"github.com/postalsys/muti-metroo/internal/agent"
 	"github.com/postalsys/muti-metroo/internal/crypto"
@@ -138,6 +141,17 @@ func runTunnels(prop string) {
 	for i := 0; i < k; i++ {
 		ts.Add(drawTunnel(m, collisionFree, maxBytes))
 	}
+	if prop == "C04" {
+		// the client walks away while the destination is still sending: the exit
+		// tears the tunnel down with data of the destination in hand
+		for _, t := range ts.T {
+			if (t.Kind == "tcp" || t.Kind == "domain" || t.Kind == "forward") && t.Down > 2000 && simrt.Chance(1, 3, "early-close") {
+				t.EarlyClose = 1 + simrt.Choose(t.Down/2, "early-close-at")
+				t.ClientClose = "close-after-read"
+				t.faulted = true // completeness is not demanded of it
+			}
+		}
+	}
 	if prop == "C17" || prop == "C16" {
 		// opens that fail at the exit: nothing listens at the destination
 		for q := simrt.Choose(3, "refused-opens"); q > 0; q-- {
@@ -263,6 +277,14 @@ func runTunnels(prop string) {
 	m.StopAll()
 }
 
+var zeroKeyAEAD = func() cipher.AEAD {
+	a, err := chacha20poly1305.New(make([]byte, 32))
+	if err != nil {
+		panic(err)
+	}
+	return a
+}()
+
 // inspectData is the C04/C07 wire monitor: no plaintext marker of any tunnel in
 // a relayed STREAM_DATA payload, and payload length = plaintext chunk + 28.
 func (ts *TunnelSet) inspectData(ev *FrameEvent) {
@@ -294,6 +316,13 @@ func (ts *TunnelSet) inspectData(ev *FrameEvent) {
 	for i := 0; i+8 <= len(p); i++ {
 		if id, ok := ts.markers[binary.LittleEndian.Uint64(p[i:])]; ok {
 			simrt.Failf("plaintext-on-mesh-link", "application bytes visible in a relayed frame", "frame %s carries plaintext of tunnel %d at payload offset %d", ev, id, i)
+		}
+	}
+	if len(p) >= 28 {
+		// sealed, but under the tunnel's key? A key everybody knows (all zero:
+		// what a wiped key object yields) is as good as none.
+		if _, err := zeroKeyAEAD.Open(nil, p[:12], p[12:], nil); err == nil {
+			simrt.Failf("sealed-under-public-key", "application bytes on a mesh link are sealed under a key everybody can compute", "frame %s opens under the all-zero key", ev)
 		}
 	}
 	if len(p) > 0 && len(p) < 28 {
